@@ -8,6 +8,8 @@ import MpVerif.C10.Model
   doctable                  ↦ the hand-written documented table, same format
   markers CODE NOBJ FR ORIG KAPPA EXTRA NALTREPORTED ALTOBJ WARNINGS ↦ `markers … | <recognisable message pieces in order>`
   addres CANREPLACE a:b a:b … ↦ `addres … | <resulting registry a:b…, new entries marked +>` or `error`
+  app AMPL WANTSOL ↦ `app … | sol=<.sol written> msg=<message on stdout> primal=<vector printed> dual=<…>`
+  raybits RAYS ↦ `raybits R | <need_ray_primal> <need_ray_dual>`
   extras CODE NOBJ FEASRELAX ORIGOBJ KAPPA RAYP RAYD IIS SOLVIOLATES ↦ `extras … | <Extras>`
   report CODE NOBJ PR DU NALT STUB ↦ `report CODE NOBJ PR DU NALT STUB | <Report>`
 -/
@@ -76,6 +78,16 @@ def handle (out : IO.FS.Stream) (ws : List String) : IO Unit := do
         | none => " error"
         | some reg => String.join (reg.map (fun (r : RegRow) => s!" {r.1}:{r.2.1}" ++ (if r.2.2 == "new" then "+" else "")))
       out.putStrLn s!"addres {b2s cr}{String.join (toks.map (fun t => " " ++ t))} |{res}"
+    | none => out.putStrLn "bad-op"
+  | ["app", am, w] =>
+    match parseBool am, w.toNat? with
+    | some am, some w =>
+      let x : AppCtx := { ampl := am, wantsol := w }
+      out.putStrLn s!"app {b2s am} {w} | sol={b2s (solFileWritten x)} msg={b2s (messagePrinted x)} primal={b2s (primalPrinted x)} dual={b2s (dualPrinted x)}"
+    | _, _ => out.putStrLn "bad-op"
+  | ["raybits", r] =>
+    match r.toNat? with
+    | some r => out.putStrLn s!"raybits {r} | {b2s (rayPrimalOfOption r)} {b2s (rayDualOfOption r)}"
     | none => out.putStrLn "bad-op"
   | _ => out.putStrLn "bad-op"
 
